@@ -55,6 +55,12 @@ def main():
     many = gen_many_cells(rng, models, MANY_N if quick else MANY_N + [511, 1000], record_upto=129 if quick else 257,
                           per_n=3 if quick else None)
     lines += many
+    # parameter-position streams (range ends / exactly 0 / default / inside; out of range)
+    special = gen_edge_cases(rng, models, rots=(0, 1, 2, 3, 4) if quick else tuple(range(5)) * 3)
+    special += gen_out_of_range(rng, models, per_model=1 if quick else 8)
+    if not quick:
+        special += gen_edge_cases(rng, models, rots=(0, 1, 2, 3, 4), backend='c', record=0)
+    lines += special
     results = run_cases(lines)
     fp_lines, fp_idx = [], []
     for i, (l, r, raw) in enumerate(results):
@@ -67,7 +73,13 @@ def main():
     n_rec = n_c = 0
     max_cpg = 0
     max_n = 0
+    n_second = 0
+    n_skipped = 0
+    pos_table = {}
     for i, (l, r, raw) in enumerate(results):
+        if r is None and is_special(l) and kernel_rejects(l):
+            n_skipped += 1          # the kernel itself panics on this draw (single-cell runs crash alone)
+            continue
         if r is None:
             c.count(l, nontrivial=False)
             f = l.split()
@@ -85,6 +97,8 @@ def main():
         c.count((L['Model'],) + cls + (L['N'],), nontrivial=L['N'] > 1)
         n_c += L['Backend'] == 'c'
         max_n = max(max_n, L['N'])
+        n_second += r.get('second_runs', 0)
+        add_positions(pos_table, r)
         max_cpg = max(max_cpg, r.get('max_cells_per_goroutine', 0))
         if not r['ok']:
             c.violation('run_%d.json' % i, {'kind': 'vectorised-run-differs-or-touches-more', 'fails': r['fails'], 'case_line': l,
@@ -135,12 +149,13 @@ def main():
             c.violation('init_%s.json' % r['model'], {'kind': 'initialise-states-row-differs', 'fails': r['fails'], 'case_line': l,
                                                       'replay': 'echo "%s" | harness/bin/cellrun' % l})
     c.cov['rule'] = ('every model of sim.Catalog x (N,nSets,nIn) in %d shapes (nSets/nIn equal to, dividing, coprime with N) x T in {0,1,7,40} '
-                     '(plus a many-cells stream N in %s on %d cheap models, footprints recorded up to N=%d) x exact / padded outputs (canaries) x padded state columns x Go-/C-backed arrays; per case: vectorised run vs N '
-                     'single-cell runs (two parameter packings) bit-for-bit, inputs/parameters bit-identical, recorded per-goroutine access '
+                     '(plus a many-cells stream N in %s on %d cheap models, footprints recorded up to N=%d) plus parameter-position streams (every scalar parameter at exactly its range ends, exactly 0, its default, inside; a low-frequency out-of-range stream x100 / negated with nSets, nIn in {1,N}; mostly shared parameter sets / input blocks) x exact / padded outputs (canaries) x padded state columns x Go-/C-backed arrays; per case: vectorised run vs N '
+                     'single-cell runs (two parameter packings) bit-for-bit, inputs/parameters bit-identical AND array descriptors (Shape, NDims, Len per axis of inputs, parameters, states, outputs) identical after every vectorised, single-cell and recorded Run; in every third case (and all many-cells cases) Run is called again on the same input/parameter objects (and with a second model instance) and must reproduce the first call bit for bit; recorded per-goroutine access '
                      'sets vs extracted Coq footprint; non-trivial = more than one cell; plus InitialiseStates(n) vs single-cell '
                      'InitialiseStates(1) (homogeneous: must agree; heterogeneous GR4J/Lag: known finding)' % (len(SHAPES), MANY_N if quick else MANY_N + [511, 1000], len(MANY_MODELS), 129 if quick else 257))
     c.finish(extra_cov={'models': len(models), 'case_classes_hit': len(classes), 'recorded_footprint_cases': n_rec,
-                        'c_backed_cases': n_c, 'many_cells_cases': len(many), 'largest_cell_count': max_n,
+                        'c_backed_cases': n_c, 'many_cells_cases': len(many), 'parameter_position_cases': len(special), 'skipped_kernel_rejects_draw': n_skipped,
+                        'parameter_positions_drawn': positions_summary(pos_table), 'cases_with_repeated_run_on_same_objects': n_second, 'largest_cell_count': max_n,
                         'max_cells_handled_by_one_goroutine': max_cpg, 'heterogeneous_init_failures': n_het_fail, 'exhaustive': False, 'coqchk': chk},
              assumptions=['array library addresses the row-major offsets its arguments denote (C01/C02; the recorder measures element addresses through the public API and validates every logged value)',
                           'kernels touch only the views they are handed (checked per run by the recorder for the explored inputs)',
